@@ -269,9 +269,14 @@ func c24Configs() []*Config {
 	bw.Name, bw.Preamble, bw.Depth = "W2-blocked-write-vs-past-deadline", established, 8
 	bw.Writers, bw.Readers, bw.Deadliners, bw.Closers = [2]bool{true, false}, [2]bool{}, [2]bool{true, false}, [2]bool{} // the peer never reads: the window stays exhausted
 	bw.Kinds, bw.DeadlineKinds, bw.WriteSizes, bw.ReadSizes, bw.MaxBytes, bw.AfterClose = []string{"wdl"}, []int{0, 1}, []int{1, 3}, []int{3}, 6, false
-	cfgs := []*Config{&bw, &data, &dl, &rej}
+	// Repeated half-closes and closes (idempotent calls): CloseWrite and Close
+	// up to twice each per stream side, CloseWrite also after Close.
+	rc := base
+	rc.Name, rc.Preamble, rc.Depth, rc.RepeatCloses = "W2-repeated-closewrite-and-close", established, 7, 2
+	rc.WriteSizes, rc.ReadSizes, rc.AfterClose = []int{1}, []int{3}, false
+	cfgs := []*Config{&bw, &data, &dl, &rej, &rc}
 	if vr.Thorough() {
-		data.Depth, dl.Depth, rej.Depth, bw.Depth = 12, 11, 13, 12
+		data.Depth, dl.Depth, rej.Depth, bw.Depth, rc.Depth = 12, 11, 13, 12, 10
 		w3 := base
 		w3.Name, w3.W, w3.WriteSizes, w3.ReadSizes, w3.MaxBytes, w3.Preamble, w3.Depth = "W3-data-and-closes-established", 3, []int{0, 1, 4}, []int{0, 1, 4}, 4, established, 8
 		cross := base
@@ -354,7 +359,7 @@ func c24Scenarios() []scenario {
 
 func TestC24(t *testing.T) {
 	runProperty(t, "C24", c24Configs(), nil, append(c24Scenarios(), segmentationScenarios()...),
-		"breadth-first exploration with state deduplication of ALL harness event sequences up to the configured depth over two real multiplexers on a harness-owned carrier inside a synctest bubble; events: open, accept, cancel of a pending open/accept, write(n) and read(k) with n,k in {0,1,W+1} (also after close / end-of-stream), closeWrite, close, SetReadDeadline/SetWriteDeadline(clear | 1 s in the past | 1 s in the future), sleep 2 s (virtual), open beyond an accept backlog of 1, deliver next chunk A>B / B>A; oracle at every quiescent state: InternalError()==nil and Closed() not closed on both sides (the harness never closes a multiplexer and never fails the carrier in these runs); non-trivial = the history contains a zero-length operation, a deadline, a cancellation, a rejection or a (half-)close; distinct by final state key. In addition two driver-policy scenarios with heartbeats ENABLED (transmit 1 s, receive limit 4 s, virtual time) on a carrier that holds one chunk per direction and is paced by the harness (50 ms of virtual time and one chunk A>B per round, 240 rounds = 12 s = 3x the limit): sustained back-to-back one-byte writes on two streams (both write buffers of the sender permanently busy) and an idle link (positive control); and the 39 carrier-segmentation histories of C23 (read boundary at every offset of every data message header, 1-byte and 3-byte carriers); same oracle",
+		"breadth-first exploration with state deduplication of ALL harness event sequences up to the configured depth over two real multiplexers on a harness-owned carrier inside a synctest bubble; events: open, accept, cancel of a pending open/accept, write(n) and read(k) with n,k in {0,1,W+1} (also after close / end-of-stream), closeWrite, close, SetReadDeadline/SetWriteDeadline(clear | 1 s in the past | 1 s in the future), sleep 2 s (virtual), open beyond an accept backlog of 1, CloseWrite and Close repeated (up to twice each per stream side, CloseWrite also after Close), deliver next chunk A>B / B>A; oracle at every quiescent state: InternalError()==nil and Closed() not closed on both sides (the harness never closes a multiplexer and never fails the carrier in these runs); non-trivial = the history contains a zero-length operation, a deadline, a cancellation, a rejection or a (half-)close; distinct by final state key. In addition two driver-policy scenarios with heartbeats ENABLED (transmit 1 s, receive limit 4 s, virtual time) on a carrier that holds one chunk per direction and is paced by the harness (50 ms of virtual time and one chunk A>B per round, 240 rounds = 12 s = 3x the limit): sustained back-to-back one-byte writes on two streams (both write buffers of the sender permanently busy) and an idle link (positive control); and the 39 carrier-segmentation histories of C23 (read boundary at every offset of every data message header, 1-byte and 3-byte carriers); same oracle",
 		[]string{commonAssume1, commonAssume2, commonAssume3,
 			"the wire message trace is not decoded: the oracle is the receiver's own verdict (InternalError / Closed) as the property states",
 			"heartbeat scenario: on the unchanged code the writer's select chooses randomly between a due heartbeat and queued data; a false alarm needs 60 consecutive choices of data (probability 2^-60)"})
@@ -388,9 +393,18 @@ func c25Configs() []*Config {
 	bp.Name, bp.W, bp.WriteBuffers, bp.MaxHeld, bp.Preamble, bp.Depth = "W3-backpressure-one-write-buffer-deadlines", 3, 1, 1, established, 16
 	bp.Writers, bp.Readers, bp.Closers, bp.Deadliners, bp.WriteSizes, bp.ReadSizes = [2]bool{true, false}, [2]bool{false, true}, [2]bool{}, [2]bool{true, false}, []int{1}, []int{4}
 	bp.Kinds, bp.DeadlineKinds = []string{"wdl"}, []int{0, 1}
-	cfgs := []*Config{&unb, &oa, &hol, &bp}
+	// Abandoned opens drained by accept, then ordinary traffic: one write
+	// buffer, stream 1 established, a second open is cancelled while it sits in
+	// the peer's backlog and the peer accepts afterwards; then reads, writes and
+	// closes on stream 1 must still get through in both directions.
+	so := base
+	so.Name, so.WriteBuffers, so.Preamble, so.Depth = "W2-one-write-buffer-cancelled-open-then-accept-then-traffic", 1, established, 9
+	so.Opens, so.Accepts, so.Kinds = [2]int{2, 0}, [2]int{0, 2}, []string{"cancel", "close"}
+	so.Writers, so.Readers, so.Closers, so.Deadliners = [2]bool{true, false}, both, [2]bool{false, true}, [2]bool{}
+	so.WriteSizes, so.ReadSizes = []int{2}, []int{3}
+	cfgs := []*Config{&unb, &oa, &hol, &bp, &so}
 	if vr.Thorough() {
-		unb.Depth, oa.Depth, hol.Depth, bp.Depth = 12, 16, 16, 24
+		unb.Depth, oa.Depth, hol.Depth, bp.Depth, so.Depth = 12, 16, 16, 24, 12
 		unb.MaxBytes, hol.MaxBytes, bp.MaxBytes = 6, 6, 6
 		scratch := base
 		scratch.Name, scratch.Depth = "W2-one-stream-from-scratch-all-kinds", 11
@@ -422,7 +436,7 @@ func c25Scripted() []replayCase {
 
 func TestC25(t *testing.T) {
 	runProperty(t, "C25", c25Configs(), c25Scripted(), nil,
-		"breadth-first exploration with state deduplication of ALL harness event sequences up to the configured depth over two real multiplexers on a harness-owned carrier inside a synctest bubble; four configurations: (1) blocked reads/writes x {deadline set in the past, deadline 1 s ahead + 2 s virtual sleep, CloseWrite, Close, peer Close/CloseWrite + delivery, multiplexer Close}; (2) three opens against an accept backlog of 1 with accepts, cancellations and multiplexer Close; (3) two established streams, window 2, writer A / reader B (head-of-line); (4) carrier that holds one chunk per direction and one write buffer with write deadlines; oracle at every quiescent state: no read/write/open/accept is pending whose deadline has passed, whose stream or multiplexer was closed, whose context was cancelled or whose peer closed the stream (close delivered); with nothing in flight no Write is pending whose data fits the peer's window for that stream and at most Backlog opens of one side are pending; in configuration (1) up to two Reads and two Writes may be outstanding per stream side (the second queues behind the first) and EVERY one of them must have returned; after closing both multiplexers every call has returned; non-trivial = at least one call was pending at a quiescent state of the history; distinct by final state key",
+		"breadth-first exploration with state deduplication of ALL harness event sequences up to the configured depth over two real multiplexers on a harness-owned carrier inside a synctest bubble; five configurations: (1) blocked reads/writes x {deadline set in the past, deadline 1 s ahead + 2 s virtual sleep, CloseWrite, Close, peer Close/CloseWrite + delivery, multiplexer Close}; (2) three opens against an accept backlog of 1 with accepts, cancellations and multiplexer Close; (3) two established streams, window 2, writer A / reader B (head-of-line); (4) carrier that holds one chunk per direction and one write buffer with write deadlines; (5) one write buffer, an established stream, a second open cancelled while it sits in the peer's backlog and drained by a later accept, followed by reads, writes and closes on the established stream; oracle at every quiescent state: no read/write/open/accept is pending whose deadline has passed, whose stream or multiplexer was closed, whose context was cancelled or whose peer closed the stream (close delivered); with nothing in flight no Write is pending whose data fits the peer's window for that stream and at most Backlog opens of one side are pending; in configuration (1) up to two Reads and two Writes may be outstanding per stream side (the second queues behind the first) and EVERY one of them must have returned; after closing both multiplexers every call has returned; non-trivial = at least one call was pending at a quiescent state of the history; distinct by final state key",
 		[]string{commonAssume1, commonAssume2, commonAssume3,
 			"'returns once X' is judged at the first quiescent state after X (virtual time, no wall clock)",
 			"a blocked reader is expected to return also after the peer's CloseWrite (half-close ends the stream for the reader)",
